@@ -1292,6 +1292,10 @@ impl ViMode for ViNormal {
 		if let Some(cmd) = cmd.as_mut() {
 			cmd.normalize_counts();
 		};
+		if self.pending_seq.is_empty() {
+			// Nothing is pending any more: the flags were for the command that just ended
+			self.pending_flags = CmdFlags::empty();
+		}
 		cmd
 	}
 
